@@ -48,6 +48,15 @@ def vec_mbqm(x, m, shift):
     return vec_rdbp(vec_srdhm(x.astype(I64) * (I64(1) << left), m), right)
 
 
+def vec_mbqm64(x, m, shift):
+    """MultiplyByQuantizedMultiplier(int64 x, ...) of the reference (16-bit activations with a 64-bit accumulator): 16-bit reduced multiplier, round half up"""
+    m = np.asarray(m, I64)
+    shift = np.asarray(shift, I64)
+    reduced = np.where(m < 0x7FFF0000, (m + (1 << 15)) >> 16, 0x7FFF)
+    total = 15 - shift
+    return (x.astype(I64) * reduced + (I64(1) << (total - 1))) >> total
+
+
 def qparams(t):
     if t["scale"] is None:
         raise Unsupported("tensor %s has no quantisation" % t["name"])
@@ -176,8 +185,7 @@ class Interp:
             sw, zw = qparams(wt)
             so, zo = qparams(ot)
             dt = it["dtype"]
-            if dt == "int16":
-                raise Unsupported("int16 convolution reference")
+            wide_acc = dt == "int16" and b is not None and T[ins[2]]["dtype"] == "int64"
             x = x - int(zi[0])
             if code == "FULLY_CONNECTED":
                 x = x.reshape(-1, w.shape[1])[:, None, None, :]
@@ -196,7 +204,18 @@ class Interp:
             lo, hi = act_range(opts.get("FusedActivationFunction", 0), so[0], zo[0], ot["dtype"])
             if len(m) == 1:
                 m, e = m[0], e[0]
-            return [requant(acc, m, e, zo[0], lo, hi)]
+            if wide_acc:
+                return [np.clip(vec_mbqm64(acc, m, e) + int(zo[0]), lo, hi)]
+            out = requant(acc, m, e, zo[0], lo, hi)
+            if dt == "int16":
+                # 16-bit activations with a 32-bit bias: the kernel versions disagree on the rounding of the full-precision multiplier (doubling high multiply +
+                # rounding shift, or one round-half-up of the 64-bit product); both are admissible references
+                total = 31 - np.asarray(e, I64)
+                alt = np.clip(((acc.astype(I64) * np.asarray(m, I64) + (I64(1) << (total - 1))) >> total) + int(zo[0]), lo, hi)
+                if not np.array_equal(alt, out):
+                    self.ambiguous = True
+                return [alt if self.mul_mode else out]
+            return [out]
         if code in ("MAX_POOL_2D", "AVERAGE_POOL_2D"):
             it = T[ins[0]]
             x = self.get(values, ins[0]).astype(I64)
@@ -244,8 +263,8 @@ class Interp:
         if code == "MUL":
             a, b = self.get(values, ins[0]).astype(I64), self.get(values, ins[1]).astype(I64)
             ta, tb = T[ins[0]], T[ins[1]]
-            if ta["dtype"] not in ("int8", "uint8"):
-                raise Unsupported("MUL on %s" % ta["dtype"])
+            if ta["dtype"] not in ("int8", "uint8", "int16") or ot["dtype"] != ta["dtype"]:
+                raise Unsupported("MUL on %s -> %s" % (ta["dtype"], ot["dtype"]))
             s1, z1 = qparams(ta)
             s2, z2 = qparams(tb)
             so, zo = qparams(ot)
@@ -280,8 +299,8 @@ class Interp:
             so, zo = qparams(ot)
             m, e = tflref.quantize_multiplier(float(si[0]) / float(so[0]))
             lo, hi = dtype_range(ot["dtype"])
-            if it["dtype"] == "int16" or ot["dtype"] == "int16":
-                raise Unsupported("int16 requantise reference")
+            if it["dtype"] not in ("int8", "uint8", "int16") or ot["dtype"] not in ("int8", "uint8", "int16"):
+                raise Unsupported("requantise %s -> %s" % (it["dtype"], ot["dtype"]))
             return [np.clip(vec_mbqm(x - int(zi[0]), m, e) + int(zo[0]), lo, hi)]
         if code in ("RESHAPE", "SQUEEZE", "EXPAND_DIMS"):
             return [self.get(values, ins[0]).reshape(ot["shape"])]
